@@ -317,7 +317,10 @@ DEFECT_REPLAYS = [
 REPAIRED = ["[1,2].kh(9223372036854775807)", "[5,1,2].kl(9223372036854775807)", "x = {}; x.__proto__ = x; x.y", "x = {}; y = {'__proto__': x}; x.__proto__ = y; [x.q, y.q]",
             "x = [0]; x[0] = x; y = [0]; y[0] = y; x == y", "x = {'a':1}; x.a = x; y = {'a':1}; y.a = y; [x == y, x == x, x != y]",
             "x = [0, 1]; x[0] = x; y = [0, 2]; y[0] = y; x == y", "x = [0]; y = [0]; x[0] = y; y[0] = x; [x == y, x == [x], [x] == [y]]",
-            "x = {'p': 1}; y = {'__proto__': x}; z = {'__proto__': y}; [z.p, z.len, z.q, z.keys]"]
+            "x = {'p': 1}; y = {'__proto__': x}; z = {'__proto__': y}; [z.p, z.len, z.q, z.keys]",
+            # work of a computed value found in a calling context is charged (and not lost when the callee returns)
+            "&a = 20d1; func f() { a }; f(); f()", "&a = 20d1; func f() { a }; func g() { f() + a }; g(); g()", "&a = 300d1; func f() { a }; f(); f(); f(); f()",
+            "&a = 20d1; &b = a + a; func f() { b + a }; f() + b", "&a = 2d1; func f() { &c = a + a; c }; func g() { f() + a }; g()"]
 
 
 def opcode_cov(rows, statuses):
